@@ -396,9 +396,25 @@ def expected_program(ops):
     return obs
 
 
+COMPOSER_MODULES = ["scsi_cdb_inquiry", "scsi_cdb_persistentreservein", "scsi_cdb_persistentreserveout",
+                    "scsi_cdb_extended_copy_spc4", "scsi_cdb_extended_copy_spc5", "scsi_cdb_modesense6", "scsi_cdb_modesense10"]
+
+
+def fresh_composers():
+    """Re-execute the composer modules so that their classes are in the state of a freshly started program (anything
+    a class or module builds lazily on first use is gone).  cmds.Cmd.cls resolves the class through the module on
+    every access, so the threads that run next get the new classes: their first use happens under the schedule."""
+    import importlib
+
+    for m in COMPOSER_MODULES:
+        importlib.reload(importlib.import_module("pyscsi.pyscsi." + m))
+
+
 def check_schedule(case):
     programs = [[tuple(o) for o in p] for p in case["programs"]]
     want = [expected_program(p) for p in programs]
+    if case.get("fresh"):
+        fresh_composers()
     s = sched.Scheduler([(lambda p=p: run_program(p)) for p in programs], [tuple(x) for x in case["schedule"]])
     got, errors = s.run()
     if s.lock_broken:
@@ -504,6 +520,19 @@ def enumerate_schedules(ctx):
             n += 1
             if ctx.mine(n):
                 common.run_one(ctx, "enumerated_single:%s+%s" % (a, b), {"programs": progs, "schedule": [(e1, 1)]}, check_schedule)
+        # the same with the composer classes in their just-imported state: the first use of anything they set up
+        # lazily happens in the preempted thread (both orders of the two programs)
+        for order in ((0, 1), (1, 0)):
+            fprogs = [[("compose", (a, b)[order[0]], COMPOSE_VALUES[(a, b)[order[0]]][order[0]])],
+                      [("compose", (a, b)[order[1]], COMPOSE_VALUES[(a, b)[order[1]]][order[1]])]]
+            fresh_composers()
+            probe = sched.Scheduler([lambda p=fprogs[0]: run_program(p)], [])
+            probe.run()
+            for e1 in range(1, probe.events + 1, 1 if ctx.thorough else 2):
+                n += 1
+                if ctx.mine(n):
+                    common.run_one(ctx, "enumerated_fresh:%s+%s" % (a, b),
+                                   {"programs": fprogs, "schedule": [(e1, 1)], "fresh": True}, check_schedule)
     ctx.exhaustive_parts.append("all single-preemption schedules%s for %d fixed two-thread program pairs" %
                                 (" and double-preemption schedules on a stride-4 grid" if ctx.thorough else " (stride 4)", len(FIXED_PAIRS) if ctx.thorough else 6))
 
